@@ -24,7 +24,12 @@ import (
 )
 
 const (
-	fairRounds = 600 // bounded liveness: Mine must return within this many fair rounds after cancellation
+	// every scheduler step costs stepTime of simulated time, so that code which polls with timers or tickers is woken
+	// while other actors keep computing; context deadlines lie deadlineBase further in the future, so that they expire
+	// only when the clock action of the fault plan (or the pre-deadlock sleep) says so
+	stepTime     = 50 * time.Microsecond
+	deadlineBase = 12 * time.Hour
+	fairRounds   = 600 // bounded liveness: Mine must return within this many fair rounds after cancellation
 )
 
 type mineRet struct {
@@ -181,7 +186,7 @@ func (w *world) simulate(choices []int) {
 		ctx = context.Background()
 	case hasDeadline:
 		var c1 context.CancelFunc
-		ctx, c1 = context.WithDeadline(context.Background(), start.Add(time.Duration(cfg.Fault.DeadlineMs)*time.Millisecond))
+		ctx, c1 = context.WithDeadline(context.Background(), start.Add(deadlineBase+time.Duration(cfg.Fault.DeadlineMs)*time.Millisecond))
 		cancels = append(cancels, c1)
 		ctx, cancel = context.WithCancel(ctx)
 		cancels = append(cancels, cancel)
@@ -238,12 +243,15 @@ func (w *world) simulate(choices []int) {
 	wraps := 0      // completed fair rounds since the fair phase began
 	censusDone := false
 	timersTried := false
+	censusSleeps := 0
 	lockSpins := 0
 	parkedSince := map[int]int{}
 	afterReturn := map[int]int{} // steps taken by each actor after Mine returned
 	hardCap := cfg.StepCap + 4000
 
 	for {
+		k.Quiesce()
+		kernel.HiddenSleep(stepTime)
 		k.Quiesce()
 		if st != nil {
 			drainLog(st, w)
@@ -311,6 +319,19 @@ func (w *world) simulate(choices []int) {
 		if w.returned && !censusDone && onlyHeld(en, parked) {
 			// Mine has returned and nothing it started can still move: take the census now,
 			// before a late cancellation could help a forgotten goroutine out.
+			if censusSleeps < 3 && len(w.leaked(base, hasCanceller && !w.cancelFired)) > 0 {
+				// something Mine started is still there: give it one simulated second (a goroutine that is merely
+				// sleeping on a timer "finishes immediately" in the sense of the property), then look again
+				censusSleeps++
+				before := time.Now()
+				kernel.HiddenSleep(time.Second)
+				w.simNs += int64(time.Since(before))
+				if hasDeadline && !w.clockFired && time.Since(start) > deadlineBase+time.Duration(cfg.Fault.DeadlineMs)*time.Millisecond {
+					w.clockFired = true
+					w.delivered("deadline_expiry")
+				}
+				continue
+			}
 			censusDone = true
 			w.censusCheck(base, hasCanceller && !w.cancelFired)
 			if hasCanceller && !w.cancelFired && !w.replay {
@@ -324,7 +345,7 @@ func (w *world) simulate(choices []int) {
 			// has not been fired yet expires here too, which is what would happen in real time)
 			timersTried = true
 			before := time.Now()
-			kernel.HiddenSleep(24 * time.Hour)
+			kernel.HiddenSleep(48 * time.Hour)
 			w.simNs += int64(time.Since(before))
 			if hasDeadline && !w.clockFired {
 				w.clockFired = true
@@ -425,7 +446,7 @@ func (w *world) simulate(choices []int) {
 		switch e.Who {
 		case Clock:
 			w.clockFired = true
-			d := time.Until(start.Add(time.Duration(cfg.Fault.DeadlineMs)*time.Millisecond)) + time.Millisecond
+			d := time.Until(start.Add(deadlineBase+time.Duration(cfg.Fault.DeadlineMs)*time.Millisecond)) + time.Millisecond
 			before := time.Now()
 			kernel.HiddenSleep(d)
 			w.simNs += int64(time.Since(before))
@@ -556,8 +577,8 @@ func trimStack(s string) string {
 	return strings.Join(lines, "\n")
 }
 
-// censusCheck compares the goroutines of the bubble with the baseline taken before the run.
-func (w *world) censusCheck(base map[string]string, cancellerAlive bool) {
+// leaked returns the stacks of bubble goroutines that did not exist before the run (apart from the held-back canceller).
+func (w *world) leaked(base map[string]string, cancellerAlive bool) []string {
 	ex := kernel.Extra(base, kernel.Census())
 	allowed := 0
 	if cancellerAlive {
@@ -571,6 +592,12 @@ func (w *world) censusCheck(base map[string]string, cancellerAlive bool) {
 		}
 		leaked = append(leaked, s)
 	}
+	return leaked
+}
+
+// censusCheck compares the goroutines of the bubble with the baseline taken before the run.
+func (w *world) censusCheck(base map[string]string, cancellerAlive bool) {
+	leaked := w.leaked(base, cancellerAlive)
 	if len(leaked) > 0 {
 		fn := "unknown"
 		for _, line := range strings.Split(leaked[0], "\n") {
